@@ -359,10 +359,6 @@ func obOK(ob *Obligation) bool {
 	return ob.Result.Status == "unsat"
 }
 
-func cmdCheck(args []string) {
-	fmt.Fprintln(os.Stderr, "check: not implemented yet")
-	os.Exit(2)
-}
 
 // loaderEnv: environment for `go list` run by go/packages inside /repo (workspace mode:
 // no -mod flag; newer toolchain selected explicitly; never touch the network).
